@@ -55,7 +55,8 @@ func init() {
 	register(&Scenario{
 		Name:  "basic",
 		Knobs: SpecKnobs{AllForksInside: true},
-		Rates: OpRates{Exit: 6, PSlash: 3, ASlash: 3, BLSChange: 15, Deposit: 6},
+		Rates: OpRates{Exit: 10, PSlash: 5, ASlash: 5, BLSChange: 20, Deposit: 10},
+		Init:  func(c *Chain) { c.SpareShare = 80 },
 		Mode: func(c *Chain, e common.Epoch) string {
 			if c.Rng.Chance(75) {
 				return "full"
@@ -202,6 +203,7 @@ func init() {
 		Name:  "deposits_mid_epoch",
 		Knobs: SpecKnobs{AllForksInside: true, FastEth1: true},
 		Rates: OpRates{Exit: 2, BLSChange: 5, Deposit: 35},
+		Init:  func(c *Chain) { c.VoteAlways = c.Rng.Chance(60) },
 		Mode: func(c *Chain, e common.Epoch) string {
 			if c.Rng.Chance(80) {
 				return "full"
@@ -235,6 +237,7 @@ func init() {
 		Gen:   GenesisKnobs{MinVals: 16, MaxVals: 48, AllMax: true, Eth1Share: 30},
 		Rates: OpRates{BLSChange: 5},
 		Init: func(c *Chain) {
+			c.VoteAlways = true
 			k := 6 + c.Rng.Intn(6)
 			for i := 0; i < k; i++ {
 				c.NewDepositor(c.Spec.MAX_EFFECTIVE_BALANCE, c.Rng.Chance(40))
@@ -287,6 +290,7 @@ func init() {
 		Knobs: SpecKnobs{AllForksInside: true, FastEth1: true},
 		Gen:   GenesisKnobs{MinVals: 32, MaxVals: 96, Eth1Share: 30, AboveShare: 15, BelowShare: 5},
 		Rates: OpRates{Deposit: 30},
+		Init:  func(c *Chain) { c.VoteAlways = true },
 		Mode:  func(c *Chain, e common.Epoch) string { return pick(c.Rng, "full", "full", "mostly") },
 		BeforeBlock: func(c *Chain, p *ProposeCtx) {
 			// once per fork (and again with some probability) put every operation kind into the block
@@ -321,5 +325,13 @@ func init() {
 			expect(c.Stats.Get("blocks_with_all_ops") >= 1, &out, "no block carried every operation kind of its fork")
 			return
 		},
+	})
+
+	// genesis: C13 stream only (adversarial deposit lists through GenesisFromEth1); with --scenario genesis a chain follows
+	register(&Scenario{
+		Name:  "genesis",
+		Knobs: SpecKnobs{AllForksInside: true},
+		Rates: OpRates{Exit: 3, Deposit: 5},
+		Mode:  func(c *Chain, e common.Epoch) string { return "full" },
 	})
 }
